@@ -302,6 +302,11 @@ func (s *Session) rfc3921Session() {
 			s.err = errors.New("iq session error")
 			return
 		}
+		// Any element decodes into an IQ: make sure that the answer is the result we are waiting for
+		if iq.XMLName.Local != "iq" || iq.Type != stanza.IQTypeResult {
+			s.err = errors.New("expecting iq result after session open, got <" + iq.XMLName.Local + "/>")
+			return
+		}
 	}
 }
 
